@@ -788,6 +788,8 @@ def load_corpus():
 
 def oracle(run, deep):
     fn_oracle(run)
+    route_oracle(run, deep)
+    quota_oracle(run)
     nev = 0
     for cfg in CONFIGS:
         nev += oracle_cfg(run, deep, cfg)
@@ -863,8 +865,9 @@ def gen_cases(run):
             pool = scal
             ops = [run.rng.choice(bsp), run.rng.choice(bsp)]
         cases.append({"ops": ops, "vals": [run.rng.choice(pool) for _ in range(3)]})
+    cases += route_cases(run) + quota_cases(run)
     # the configurations whose options touch dispatch: the whole grid again, over a smaller corpus in the quick tier
-    for cfg in CONFIGS[1:]:
+    for cfg in CONFIGS[1:3]:
         cvals = SMALL if run.quick else corpus_values(False, special=True)
         for c in load_corpus():
             cases.append(dict(c, cfg=cfg))
@@ -875,6 +878,79 @@ def gen_cases(run):
             for a, b in itertools.product(cvals, cvals):
                 cases.append({"cfg": cfg, "ops": [sp], "vals": [a, b]})
     return cases
+
+
+LITS = [None, True, False, 0, 1, -1, 2, -7, 2 ** 63 + 1, -(10 ** 40), 0.0, -0.0, 2.5, -2.5, float(2 ** 63),
+        "", "a", "ab", "\u00e9", (1, 2)]
+CHAINS = [["-", "-"], ["-", "+"], ["+", "-"], ["+", "+"], ["-", "-", "-"], ["not", "-"], ["-", "not"], ["not", "not"], ["+", "not", "+"]]
+
+
+def route_cases(run):
+    """the same operators reached through other delivery routes: operands spelled as LITERALS in the text
+    (sign-free spellings; signed ones are compared with the variable route by the oracle), and chains of
+    unary operators over a variable and over a literal"""
+    out = []
+    vals = LITS + ([] if run.quick else [v for v in INTS_MORE + FLOATS_MORE + STRS_CORE + STRS_MORE if lit(v) is not None])
+    plain = [v for v in vals if lit(v) is not None and not signed(v)]
+    for cfg in ("CDefault", "CLegacy"):
+        pv = plain if cfg == "CDefault" else [v for v in plain if kind(v) in ("null", "bool", "int", "str")][:9]
+        for sp in [s_ for _, s_ in UNARY]:
+            for a in pv:
+                out.append({"cfg": cfg, "route": "lit", "ops": [sp], "vals": [a]})
+        for _, sp in BINARY:
+            for a, b in itertools.product(pv, pv):
+                out.append({"cfg": cfg, "route": "lit", "ops": [sp], "vals": [a, b]})
+        for ch in CHAINS:                       # ch is written outermost first
+            inner, post = ch[-1], list(reversed(ch[:-1]))
+            for a in pv:
+                out.append({"cfg": cfg, "route": "lit", "ops": [inner], "post": post, "vals": [a]})
+            for a in (vals if cfg == "CDefault" else pv):
+                out.append({"cfg": cfg, "ops": [inner], "post": post, "vals": [a]})
+    return out
+
+
+QUOTAS = [200, 1000, 5000, 20000]
+# operands whose repetition the implementation sizes exactly (ASCII strings, lists, tuples)
+REP_OPERANDS = ["ab", "a", "ababab", [1, 2], (1, 2), [0]]
+
+
+def quota_counts(a, quota):
+    """counts around the true threshold getsizeof(a * n) = quota, from both sides, plus the small ones"""
+    import sys
+    n = 0
+    while sys.getsizeof(a * (n + 1)) <= quota:
+        n += 1
+    m = 0
+    while sys.getsizeof(a * (m + 1)) <= 0.85 * quota and len(a * (m + 1)) <= 1000:
+        m += 1
+    return sorted({c for c in (0, 1, 2, m - 1, m, n - 2, n - 1, n, n + 1, n + 2, n + 3, 2 * n + 5) if c >= 0})
+
+
+def quota_cases(run):
+    """string/sequence repetition on engines WITH yaql.memoryQuota (and yaql.limitIterators)"""
+    out = []
+    for q in QUOTAS:
+        for a in REP_OPERANDS:
+            for n in quota_counts(a, q):
+                out.append({"cfg": "CQuota", "quota": q, "ops": ["*"], "vals": [a, n]})
+                out.append({"cfg": "CQuota", "quota": q, "ops": ["*"], "vals": [n, a]})
+    return out
+
+
+def quota_fits(case):
+    """('yes' | 'no' | 'either', the repeated value).  Strings are sized exactly by the implementation.  A
+    sequence result is copied by the output conversion (an over-allocated list, ~1.1x) and is subject to
+    yaql.limitIterators = 1000, so between 85% of the quota and the quota, and above 1000 items, either
+    outcome is accepted."""
+    import sys
+    a, n = case["vals"] if kind(case["vals"][1]) == "int" else reversed(case["vals"])
+    r = a * n
+    size, q = sys.getsizeof(r), case["quota"]
+    if kind(a) == "str":
+        return ("yes" if size <= q else "no"), r
+    if size > q:
+        return "no", r
+    return ("yes" if size <= 0.85 * q and len(r) <= 1000 else "either"), r
 
 
 def too_big(case):
@@ -945,8 +1021,13 @@ def correspondence(run):
     lawsof = {}
     terms, meta, terms64, idx64 = [], [], [], []
     for i, case in enumerate(gen_cases(run)):
-        im = impl(cfg_of(case))
-        if too_big(case):          # first: triple_mode evaluates the inner operator
+        im = impl_of(case)
+        if case.get("quota"):
+            fits, r = quota_fits(case)
+            if fits != "yes" or len(r) > 3000:     # refusals and big results: checked by the oracle only
+                run.cov["skipped"] += 1
+                continue
+        elif too_big(case):          # first: triple_mode evaluates the inner operator
             run.cov["skipped"] += 1
             continue
         mode = triple_mode(im, case)
@@ -955,10 +1036,14 @@ def correspondence(run):
             continue
         plain, traced, ran = observe(im, case)
         ks = tuple(kind(v) for v in case["vals"])
-        run.case((cfg_of(case), tuple(case["ops"]), tuple(canon(v) for v in case["vals"]), ks),
+        run.case((cfg_of(case), case.get("route"), tuple(case.get("post", [])), case.get("quota"),
+                  tuple(case["ops"]), tuple(canon(v) for v in case["vals"]), ks),
                  nontrivial=bool(ran) or any(k in ("null", "bool") for k in ks))
         run.count("op:" + " ".join(case["ops"]))
         run.count("cfg:" + cfg_of(case))
+        if case.get("route") == "lit" or case.get("post") or case.get("quota"):
+            run.count("route:" + ("literal" if case.get("route") == "lit" else "variable") +
+                      (" chain" if case.get("post") else "") + (" quota" if case.get("quota") else ""))
         run.count("kinds:" + ",".join(ks))
         run.count("outcome:" + (plain[1] if plain[0] == "err" else "value:" + plain[1][0]))
         if i % 1201 == 0:
@@ -1003,10 +1088,15 @@ def correspondence(run):
                 fails = check_laws(run, laws, Laws.PAIR, lvals, count=False)
         elif len(vals) == 1:
             fails = check_laws(run, laws, Laws.SINGLE, lvals, count=False)
-        key = (cfg, tuple(case["ops"]), tuple(kind(v) for v in vals), plain[0], fails[0][0] if fails else None)
+        slaw, sres, sform = special_law(case)
+        key = (cfg, case.get("route"), bool(case.get("post")), case.get("quota"), tuple(case["ops"]),
+               tuple(kind(v) for v in vals), plain[0], fails[0][0] if fails else None)
         if key in reported:
             continue
         reported.add(key)
+        if sres:
+            report_special(run, slaw, case, sres, sform)
+            continue
         data = {"case": enc_case(case), "expression": case_text(case), "values_readable": [repr(v)[:80] for v in vals],
                 "implementation": repr(plain), "payloads_ran": ran, "model": model_says(run, case)}
         if fails:
@@ -1017,6 +1107,110 @@ def correspondence(run):
         else:
             run.fail("mismatch", "%s on (%s) [%s]: implementation %r / payloads %s differ from the model"
                      % (case_text(case), ",".join(kind(v) for v in vals), cfg, plain, ran), data)
+
+
+# ----------------------------------------------------------------------------- delivery routes and quota engines
+def texts_of(case, form):
+    """expression text of a 1/2-operand case in a delivery form: 'var' | 'lit' | 'lit-var' | 'var-lit'"""
+    n = len(case["vals"])
+    xs = []
+    for i, v in enumerate(case["vals"]):
+        use_lit = form == "lit" or (form == "lit-var" and i == 0) or (form == "var-lit" and i == 1)
+        xs.append(lit(v) if use_lit else "$" + "abc"[i])
+    if n == 1:
+        t = un(case["ops"][0], xs[0])
+        for sp in case.get("post", []):
+            t = un(sp, t)
+        return t
+    return "%s %s %s" % (xs[0], case["ops"][0], xs[1])
+
+
+def route_check(case, form):
+    """the delivery-route law: the outcome (value or error class) does not depend on whether an operand is
+    bound as a variable or spelled as a literal.  None = holds, else (what, observed, required)"""
+    im = impl_of(case)
+    env = dict(zip("abc", case["vals"]))
+    ref = im.run(texts_of(case, "var"), **env)
+    text = texts_of(case, form)
+    got = im.run(text, **env)
+    if got == ref:
+        return None
+    what = "`%s` gives another outcome than `%s` with the same values bound as variables" % (text, texts_of(case, "var"))
+    if any(kind(v) == "bool" for v in case["vals"]) and got[0] == "val" and ref == NOMATCH:
+        what = "a boolean LITERAL was accepted as a number: " + what
+    return (what, {"literal route": got, "variable route": ref}, "the same outcome on both routes")
+
+
+def quota_check(case):
+    """on an engine with yaql.memoryQuota: a repetition whose result fits the quota is returned (and is the
+    right value); one that does not fit may only raise MemoryQuotaExceededException"""
+    fits, r = quota_fits(case)
+    got = impl_of(case).run(text2("*"), a=case["vals"][0], b=case["vals"][1])
+    if fits == "either":
+        return None
+    fits = fits == "yes"
+    refusals = [("err", "EQuota")] + ([("err", "Other:CollectionTooLargeException")] if kind(r) != "str" and len(r) > 1000 else [])
+    if fits and got != ("val", canon(r)):
+        return ("a repetition whose result fits yaql.memoryQuota=%d (result size %d bytes) was not returned"
+                % (case["quota"], __import__("sys").getsizeof(r)), {"a * b": got}, "the repeated value")
+    if not fits and got not in refusals:
+        return ("a repetition whose result exceeds yaql.memoryQuota=%d did not raise MemoryQuotaExceededException" % case["quota"],
+                {"a * b": got}, "MemoryQuotaExceededException")
+    return None
+
+
+def special_law(case):
+    if case.get("quota"):
+        return "quota", quota_check(case), None
+    if case.get("route") == "lit":
+        return "route", route_check(case, "lit"), "lit"
+    return None, None, None
+
+
+def report_special(run, law, case, res, form=None):
+    what, observed, required = res
+    data = {"law": law, "case": enc_case(case), "expression": texts_of(case, form) if form else case_text(case),
+            "values_readable": [repr(v)[:80] for v in case["vals"]], "observed": repr(observed), "required": repr(required)}
+    if form:
+        data["form"] = form
+    run.fail("violation", "law %s [%s%s]: %s" % (law, cfg_of(case), " quota %d" % case["quota"] if case.get("quota") else "", what), data)
+
+
+def route_oracle(run, deep):
+    seen = set()
+    for cfg in ("CDefault", "CLegacy"):
+        vals = [v for v in LITS if lit(v) is not None]
+        if cfg != "CDefault" and run.quick and not deep:
+            vals = [v for v in vals if kind(v) in ("null", "bool", "int", "str")][:10]
+        cases = [{"cfg": cfg, "ops": [sp], "vals": [a]} for _, sp in UNARY for a in vals]
+        cases += [{"cfg": cfg, "ops": [ch[-1]], "post": list(reversed(ch[:-1])), "vals": [a]} for ch in CHAINS for a in vals]
+        for c in cases:
+            run.count("law:route")
+            r = route_check(c, "lit")
+            if r and ("u", cfg) not in seen:
+                seen.add(("u", cfg))
+                report_special(run, "route", c, r, "lit")
+        for _, sp in BINARY:
+            for a, b in itertools.product(vals, vals):
+                c = {"cfg": cfg, "ops": [sp], "vals": [a, b]}
+                for form in ("lit", "var-lit", "lit-var"):
+                    run.count("law:route")
+                    r = route_check(c, form)
+                    key = (form, cfg, r[0].startswith("a boolean") if r else None)
+                    if r and key not in seen:
+                        seen.add(key)
+                        report_special(run, "route", c, r, form)
+
+
+def quota_oracle(run):
+    seen = set()
+    for c in quota_cases(run):
+        run.count("law:quota")
+        r = quota_check(c)
+        key = r[0][:40] if r else None
+        if r and key not in seen:
+            seen.add(key)
+            report_special(run, "quota", c, r)
 
 
 def model_says(run, case):
@@ -1156,6 +1350,9 @@ def replay(run, data):
         if fn_law(impl("CDefault"), d["fn"], args):
             return False
         return not run.coq_mismatches(HEADERF, "fcase", "fcase_ok", ["(%s, %s, %s)" % (d["fn"], gal.zlist(args), gal.opt(got, gal.z))])
+    if d.get("law") in ("route", "quota") and "case" in d:
+        case = dec_case(d["case"])
+        return (quota_check(case) if d["law"] == "quota" else route_check(case, d.get("form", "lit"))) is None
     im = impl(d.get("cfg") or (d.get("case") or {}).get("cfg") or "CDefault")
     if "law" in d and "vals" in d:
         laws = Laws(im)
